@@ -303,6 +303,27 @@ theorem checkpoint_corruption_detected {σ : Type} (crc : Bytes → Nat) (de : B
   · exact chk_err_of_footer_crc crc de data h
   · exact chk_err_of_data_crc crc de data h
 
+/-! ## gossip frames -/
+
+/-- a gossip message arrives unchanged — given the round-trip law of the (unmodelled)
+    serde_json codec for that message, which is the obligation the harness checks on every run
+    for every delta, every message variant and binary / non-UTF-8 payloads -/
+theorem gossip_roundtrip {μ : Type} (c : SerDe μ) (m : μ) (hlaw : c.Lawful m) :
+    gossipDeliver c m = some m := hlaw
+
+/-- the law is a real obligation: a codec that carries payloads as lossy text (0xFF → U+FFFD)
+    violates it, and the message that arrives differs -/
+def lossyCodec : SerDe Bytes :=
+  ⟨fun b => b.flatMap (fun x => if x < 128 then [x] else [239, 191, 189]), fun b => some b⟩
+
+theorem gossip_lossy_counterexample :
+    ¬ lossyCodec.Lawful [255] ∧ gossipDeliver lossyCodec [255] = some [239, 191, 189] := by
+  constructor
+  · intro h
+    unfold SerDe.Lawful lossyCodec at h
+    simp at h
+  · rfl
+
 /-! ## length fields are 32-bit values: no bound test wraps -/
 
 /-- `WalEntry::decode`: the size test the current code performs (checked `usize` add of the
